@@ -172,17 +172,108 @@ def checkSnapObs (w : World) (sw : SnapWorld) (toks : List String) : World × Sn
         w.fail "C13" "reconstruct" s!"peer {p}: index after reloading the snapshot differs from the saved one" else w
     (w, sw')
 
+/-! ## events -/
+
+structure EvWorld where
+  reads  : List (String × List Nat) := []     -- legacy subscriber ↦ everything received so far
+  writes : List (Nat × Nat) := []             -- (peer, entry) write events seen
+deriving Inhabited
+
+def onERead (w : World) (ew : EvWorld) (toks : List String) : World × EvWorld :=
+  let name := toks.getD 1 ""
+  let got := (commaList (toks.getD 2 "-")).map (fun t => natOr t 0)
+  let sofar := ((ew.reads.find? (·.1 == name)).map (·.2)).getD [] ++ got
+  let want := (List.range sofar.length).map (· + 1)
+  let w := if sofar != want then
+      w.fail "C16" "order" s!"legacy subscriber {name} received {sofar}: not the emitted sequence 1,2,3,… in order without loss or duplication" else w
+  (w, { ew with reads := (name, sofar) :: ew.reads.filter (·.1 != name) })
+
+def onEFinal (w : World) (ew : EvWorld) (toks : List String) : World × EvWorld :=
+  let n := natOr (toks.getD 1 "") 0
+  (ew.reads.foldl (fun w (name, got) =>
+    if got.length != n then w.fail "C16" "loss" s!"legacy subscriber {name} received {got.length} of {n} emitted events" else w) w, ew)
+
+def onEClosed (w : World) (toks : List String) : World :=
+  if toks.getD 2 "" != "true" then
+    w.fail "C18" "leak" s!"legacy subscriber {toks.getD 1 ""}: its channel was never closed after its context ended (goroutine and bus subscription leak)" else w
+
+def onEvent (w : World) (ew : EvWorld) (toks : List String) : World × EvWorld :=
+  let p := peerNum (toks.getD 1 "")
+  let kind := toks.getD 2 ""
+  let es := namesToNums (arg toks "entries")
+  let vals := namesToNums (arg toks "values")
+  -- when the subscriber receives the event, queries already reflect the announced entries
+  let w := es.foldl (fun w n => if !vals.contains n then
+      w.fail "C16" "ahead" s!"peer {p}: {kind} event for e{n} received while the store lists {showNums vals}" else w) w
+  let w := if w.dbKind == Kind.log then w else
+      let ients := w.entriesOf vals
+      let want := if w.dbKind == Kind.kv then lwwReplay ients else docReplay ients
+      if showKV want != showKV (parseKVs (arg toks "idx")) then
+        w.fail "C16" "ahead" s!"peer {p}: at the {kind} event for {showNums es} the index does not reflect the listing {showNums vals}" else w
+  if kind == "write" then
+    let n := es.headD 0
+    let w := if es.length != 1 then w.fail "C16" "write" s!"peer {p}: write event carrying {es.length} entries" else w
+    let w := if ew.writes.contains (p, n) then w.fail "C16" "dup" s!"peer {p}: two write events for e{n}" else w
+    let w := match w.entry n with
+      | some e => if e.ident != p || !w.acked.contains n then w.fail "C16" "write" s!"peer {p}: write event for e{n}, which is not an acknowledged local write of this peer" else w
+      | none => w
+    (w, { ew with writes := (p, n) :: ew.writes })
+  else (w, ew)
+
 structure Full where
   w  : World := {}
   aw : AddrWorld := {}
   sw : SnapWorld := {}
+  ew : EvWorld := {}
+  watched : List Nat := []
 deriving Inhabited
 
 def Full.step (f : Full) (line : String) : Full :=
   let toks := fields line
   let bump (w : World) : World := { w with lineNo := w.lineNo + 1 }
   match toks.headD "" with
-  | "scn" => { w := f.w.stepAll line, aw := {}, sw := {} }
+  | "scn" => { w := f.w.stepAll line, aw := {}, sw := {}, ew := {}, watched := [] }
+  | "closed" =>
+    let w := bump f.w
+    let p := peerNum (toks.getD 1 "")
+    let w := if arg toks "first" != "ok" || arg toks "second" != "ok" then
+        w.fail "C18" "close" s!"peer {p}: Close / repeated Close returned {arg toks "first"} / {arg toks "second"}" else w
+    { f with w := w }
+  | "afterclose" =>
+    let w := bump f.w
+    let bad := (toks.drop 2).filter (fun t => t.endsWith "=panic" || t.endsWith "=hang")
+    { f with w := if bad.isEmpty then w else w.fail "C18" "afterclose" s!"operations on the closed store of peer {toks.getD 1 ""}: {bad}" }
+  | "leak" =>
+    let w := bump f.w
+    let extra := parseInt (arg toks "extra")
+    { f with w := if extra > 0 then w.fail "C18" "leak" s!"{extra} store-layer goroutines still running after every store was closed: {arg toks "kinds"}" else w }
+  | "dropped" =>
+    let w := bump f.w
+    let p := peerNum (toks.getD 1 "")
+    let k := natOr (arg toks "db") 0
+    let left := (commaList (arg toks "left")).map (fun t => natOr t 0)
+    let w := if toks.getD 2 "" != "ok" then w.fail "C18" "drop" s!"peer {p}: Drop returned {toks.getD 2 ""}" else w
+    let w := if left.contains k then w.fail "C18" "drop" s!"peer {p}: local data of database {k} still present after Drop" else w
+    let others := (List.range w.nDb).filter (· != k)
+    let w := others.foldl (fun w d => if !left.contains d then w.fail "C18" "drop" s!"peer {p}: Drop of database {k} removed the local data of database {d}" else w) w
+    -- the model forgets the dropped database's local state
+    let cur := w.curDb
+    let w := ((w.useDb k).setStore p { kind := (w.useDb k).dbKind, log := Log.empty (k + 1) }).useDb cur
+    { f with w := w }
+  | "eread" => let (w, ew) := onERead (bump f.w) f.ew toks; { f with w := w, ew := ew }
+  | "efinal" => let (w, ew) := onEFinal (bump f.w) f.ew toks; { f with w := w, ew := ew }
+  | "eclosed" => { f with w := onEClosed (bump f.w) toks }
+  | "event" => let (w, ew) := onEvent (bump f.w) f.ew toks; { f with w := w, ew := ew }
+  | "op" =>
+    let f := if toks.getD 1 "" == "evwatch" then { f with watched := peerNum (toks.getD 2 "") :: f.watched } else f
+    { f with w := f.w.stepAll line }
+  | "end" =>
+    -- exactly one write event per successful local write on every watched peer
+    let w := f.watched.foldl (fun w p =>
+      let mine := w.acked.filter (fun n => match w.entry n with | some e => e.ident == p | none => false)
+      let missing := mine.filter (fun n => !f.ew.writes.contains (p, n))
+      if missing.isEmpty then w else w.fail "C16" "loss" s!"peer {p}: no write event for acknowledged writes {showNums (sortNums missing)}") f.w
+    { f with w := w.stepAll line }
   | "addr" => let (w, aw) := onAddr (bump f.w) f.aw toks; { f with w := w, aw := aw }
   | "created" => let (w, aw) := onCreated (bump f.w) f.aw toks; { f with w := w, aw := aw }
   | "opened" =>
